@@ -97,7 +97,7 @@ def run(prop, tier, seed, replay=None):
             if a.split(".")[-1] not in {x.split(".")[-1] for x in vlib.ALLOWED_AXIOMS}:
                 bad_axioms.append("%s depends on %s" % (name, a))
     missing_pa = [t for t in pr["theorems"] if t not in pr["printed"]]
-    hyg = vlib.hygiene()
+    hyg = vlib.hygiene(prop.prop_file)
     if proof_broken:
         tail = "\n".join(pr["log"].splitlines()[-25:])
         notes.append("Coq build of %s failed:\n%s" % (prop.prop_file, tail))
